@@ -415,6 +415,20 @@ class Fn:
         self.text = self.text[:s] + head.rstrip() + '\n' + spec.rstrip('\n') + '\n' + ind + self.text[b:]
         return self
 
+    def apply_overlay(self, name):
+        """replay the stored line-anchored overlay (contract, loop invariants, proof hints) on the current text."""
+        import overlay as _ov
+        notes = []
+        try:
+            self.text = _ov.apply(self.text, _ov.load(name), notes)
+        except _ov.AnchorLost as e:
+            self._lost('overlay %s: %s' % (name, e))
+        except OSError as e:
+            raise Undecided('overlay %s missing: %s' % (name, e))
+        for n in notes:
+            self.log.rule('soft-anchor', self, n)
+        return self
+
     def sig_and_body(self):
         return self.text
 
